@@ -6,7 +6,13 @@ FUNCTIONS = ['uxarray.grid.connectivity._build_edge_face_connectivity',
     'uxarray.io._mpas._parse_face_faces@primal',
     'uxarray.io._mpas._parse_node_faces@primal',
     'uxarray.io._mpas._parse_node_faces@dual',
-    'uxarray.grid.connectivity._build_node_faces_connectivity']
+    'uxarray.grid.connectivity._build_node_faces_connectivity',
+    'uxarray.io._mpas._parse_edge_faces@primal',
+    'uxarray.io._mpas._parse_edge_faces@dual',
+    'uxarray.io._mpas._parse_face_edges@primal',
+    'uxarray.io._mpas._parse_face_edges@dual',
+    'uxarray.io._mpas._parse_edge_nodes@primal',
+    'uxarray.io._mpas._parse_edge_nodes@dual']
 STANDINS = ["incidence"]
 ASSUMPTIONS = []
 EXPLANATION = "builders under contract + bounded stand-in"
